@@ -292,6 +292,7 @@ pub fn a_11_deep(cfg: &Cfg) -> Vec<Op> {
         c(Cup(None, None)),
         c(Cuu(None)),
         c(sgr1(41)),
+        c(Decaln),
     ];
     v.extend(resizes(&[(2, 2), (3, 3), (2, 3)]));
     v
@@ -311,7 +312,11 @@ macro_rules! parts {
             name: "full-alphabet",
             sys: $sa,
             cfgs: match tier {
-                Tier::Quick => cfgs(&[(3, 3), (2, 2), (1, 1)], &[None, Some(0)]),
+                Tier::Quick => {
+                    let mut v = cfgs(&[(3, 3), (2, 2), (1, 1)], &[None, Some(0)]);
+                    v.push(Cfg::new(8, 2, None)); // wide enough for the REP compression of dump()
+                    v
+                }
                 Tier::Thorough => cfgs(&[(3, 3), (2, 2), (4, 3), (9, 2), (1, 1)], &[None, Some(0), Some(1)]),
             },
             alphabet: &a_11,
@@ -328,7 +333,7 @@ macro_rules! parts {
                 Tier::Thorough => cfgs(&[(3, 3), (2, 2), (4, 3)], &[None, Some(0)]),
             },
             alphabet: &a_11_deep,
-            depth: tier.pick(6, 7),
+            depth: tier.pick(5, 7),
             seconds: tier.pick(25.0, 2400.0),
             validated: true,
             nontrivial: Some("states_round_tripped"),
